@@ -254,6 +254,8 @@ def subscript(cx, n, env):
         k = _num(n.slice)
         if k not in (0, 1): cx.err("edge index is not 0 or 1", n)
         return V(f"{v.lean}.{k + 1}", "nat")
+    if v.ty == "mode" and cx.cfg.get("mode_dict"):
+        return V(f"({cx.cfg['mode_dict']} {nat_expr(cx, n.slice, env)})", "rat")
     if v.ty.startswith("attr:"):
         return V(f"({v.lean} {nat_expr(cx, n.slice, env)})", v.ty[5:])
     cx.err(f"unsupported subscript of a {v.ty}", n)
@@ -753,7 +755,7 @@ class Fn:
         return out
 
     def state_of(self, stmts, env):
-        return [n for n in self.assigned(stmts) if n in env and (env[n].ty.startswith("attr:") or env[n].ty in ("nat", "rat", "root", "vec") and env[n].lean in self.names.values())]
+        return [n for n in self.assigned(stmts) if n in env and (env[n].ty.startswith("attr:") or env[n].ty == "attr2" or env[n].ty in ("nat", "rat", "root", "vec") and env[n].lean in self.names.values())]
 
     def pack(self, S, env):
         if len(S) == 1: return env[S[0]].lean
@@ -791,11 +793,20 @@ class Fn:
                 want = self.cfg.get("sources", {}).get(key)
                 if want is None or (cont, key, fb) != want[:3]: cx.err(f"unexpected cached attribute source {cont}['{key}'] / {fb}", st)
                 env[var] = V(want[3], want[4]); self.sources.append((self.fn.name, var, cont, key, fb)); continue
-            if isinstance(st, ast.Assign) and len(st.targets) == 1 and isinstance(st.targets[0], ast.Name) \
-                    and ast.unparse(st.value).replace(" ", "").startswith("np.zeros(len(mesh."):
-                ln = self.lname(st.targets[0].id)
-                lets.append(f"let {ln} : Attr (Rat) := fun _ => 0")
-                env[st.targets[0].id] = V(ln, "attr:rat"); continue
+            wa = self.work_arrays(st, env)
+            if wa is not None:
+                for name, ety, init, size in wa:
+                    ln = self.lname(name)
+                    lets.append(f"let {ln} : Attr ({ETY[ety]}) := fun _ => {init}")
+                    env[name] = V(ln, "attr:" + ety, length=size)
+                continue
+            if isinstance(st, ast.If):
+                common = self.common_inits(st, env)
+                for name, ety, init, size in common:
+                    if name not in env:
+                        ln = self.lname(name)
+                        lets.append(f"let {ln} : Attr ({ETY[ety]}) := fun _ => {ZERO[ety]}")
+                        env[name] = V(ln, "attr:" + ety, length=size)
             if isinstance(st, ast.If):
                 c = cond(cx, st.test, env)
                 mod = [n for n in self.assigned([st]) if n in env]
@@ -840,6 +851,55 @@ class Fn:
             cx.err("unsupported statement", st)
         return self.wrap(lets, self.pack(S, env))
 
+    def _np_init(self, value, env):
+        """`np.zeros(<n>)` / `np.ones(<n>)` (optionally with dtype=int|float) -> (init, size) or None"""
+        if not (isinstance(value, ast.Call) and ast.unparse(value.func) in ("np.zeros", "np.ones") and len(value.args) == 1): return None
+        for kw in value.keywords:
+            if kw.arg != "dtype" or ast.unparse(kw.value) not in ("int", "float"): return None
+        return ("1" if ast.unparse(value.func) == "np.ones" else "0"), nat_expr(self.cx, value.args[0], env)
+
+    def lil_matrix(self, st, env):
+        """`mat = sp.lil_matrix((n, m))` -> (name, rows, cols)"""
+        if isinstance(st, ast.Assign) and len(st.targets) == 1 and isinstance(st.targets[0], ast.Name) and isinstance(st.value, ast.Call) \
+                and ast.unparse(st.value.func) == "sp.lil_matrix" and len(st.value.args) == 1 and isinstance(st.value.args[0], ast.Tuple) \
+                and len(st.value.args[0].elts) == 2 and not st.value.keywords:
+            return st.targets[0].id, nat_expr(self.cx, st.value.args[0].elts[0], env), nat_expr(self.cx, st.value.args[0].elts[1], env)
+        return None
+
+    def work_arrays(self, st, env):
+        """`X = np.zeros(n)` or `X, Y = np.zeros(n), np.zeros(n)` -> [(name, element type, initial value, size)]"""
+        if not (isinstance(st, ast.Assign) and len(st.targets) == 1): return None
+        t, v = st.targets[0], st.value
+        ety = self.cfg.get("index_arrays", "rat") if isinstance(t, ast.Tuple) else "rat"
+        if isinstance(t, ast.Name): pairs = [(t, v)]
+        elif isinstance(t, ast.Tuple) and isinstance(v, ast.Tuple) and len(t.elts) == len(v.elts) and all(isinstance(e, ast.Name) for e in t.elts):
+            pairs = list(zip(t.elts, v.elts))
+        else: return None
+        out = []
+        for n_, v_ in pairs:
+            r = self._np_init(v_, env)
+            if r is None: return None
+            out.append((n_.id, ety, r[0], r[1]))
+        return out
+
+    def common_inits(self, st, env):
+        """work arrays created at the top of EVERY branch of an if/elif/else under the same name"""
+        branches = []
+        cur = st
+        while True:
+            branches.append(strip(cur.body))
+            if len(cur.orelse) == 1 and isinstance(cur.orelse[0], ast.If): cur = cur.orelse[0]
+            else:
+                if not cur.orelse: return []
+                branches.append(strip(cur.orelse)); break
+        firsts = []
+        for b in branches:
+            wa = self.work_arrays(b[0], env) if b else None
+            if not wa or len(wa) != 1: return []
+            firsts.append(wa[0])
+        if len({(f[0], f[1]) for f in firsts}) != 1: return []
+        return [firsts[0]]
+
     def wrap(self, lets, res):
         if not lets: return res
         return "(" + "; ".join(lets) + "; " + res + ")"
@@ -860,6 +920,11 @@ class Fn:
 
     def write(self, tgt, op, value, env, node):
         cx = self.cx
+        if isinstance(tgt.value, ast.Name) and tgt.value.id in env and env[tgt.value.id].ty == "attr2":
+            a = env[tgt.value.id]
+            if op is not None or not isinstance(tgt.slice, ast.Tuple) or len(tgt.slice.elts) != 2: cx.err("a sparse matrix entry is not written as `mat[i, j] = v`", node)
+            v = as_ty(cx, expr(cx, value, env), "rat", node)
+            return f"let {a.lean} := wr2 {a.lean} {nat_expr(cx, tgt.slice.elts[0], env)} {nat_expr(cx, tgt.slice.elts[1], env)} {v.lean}"
         if not isinstance(tgt.value, ast.Name) or tgt.value.id not in env or not env[tgt.value.id].ty.startswith("attr:"):
             cx.err("write through something that is not an attribute / work array of this function", node)
         a = env[tgt.value.id]
@@ -960,7 +1025,7 @@ def attr_function(fn, sigs, cfg):
     """whole attribute function -> Lean definition.  cfg: params (list of (python name|None, lean name, lean type, V type)), elem (element
     type of the output attribute), locals ({python name: type} for initialised accumulators), ret ('attr' | 'scalar:<ty>')"""
     cfg = dict(cfg); cfg.pop("_locals_left", None)
-    F = Fn(fn, sigs, cfg)
+    F = Fn(fn, dict(sigs, **cfg.get("sigs", {})), cfg)
     cx = F.cx
     env = {}
     # the configured value parameters are bound BY POSITION to the function's parameters after `mesh` (names are free)
@@ -1012,6 +1077,24 @@ def attr_function(fn, sigs, cfg):
             continue
         if isinstance(st, ast.Return):
             if k != len(body) - 1: cx.err("return before the end", st)
+            if cfg.get("ret") == "coo":
+                c_ = st.value
+                ok_ = isinstance(c_, ast.Call) and ast.unparse(c_.func) in ("sp.coo_matrix", "sp.csc_matrix", "sp.csr_matrix") and len(c_.args) == 1 \
+                    and isinstance(c_.args[0], ast.Tuple) and len(c_.args[0].elts) == 2 and isinstance(c_.args[0].elts[1], ast.Tuple) and len(c_.args[0].elts[1].elts) == 2
+                if not ok_: cx.err("the result is not sp.coo_matrix((vals, (rows, cols)), shape=..)", st)
+                vv = expr(cx, c_.args[0].elts[0], env); rr = expr(cx, c_.args[0].elts[1].elts[0], env); cc = expr(cx, c_.args[0].elts[1].elts[1], env)
+                if not (vv.ty == "attr:rat" and rr.ty == "attr:nat" and cc.ty == "attr:nat"): cx.err(f"unexpected coefficient / index arrays ({vv.ty}, {rr.ty}, {cc.ty})", st)
+                if not (vv.length == rr.length == cc.length and vv.length is not None): cx.err(f"the three arrays have different sizes ({vv.length}, {rr.length}, {cc.length})", st)
+                shp = [kw.value for kw in c_.keywords if kw.arg == "shape"]
+                if len(shp) != 1 or not isinstance(shp[0], ast.Tuple) or len(shp[0].elts) != 2: cx.err("shape=(.., ..) missing", st)
+                F.shape = (nat_expr(cx, shp[0].elts[0], env), nat_expr(cx, shp[0].elts[1], env))
+                ret = V(f"(List.range ({vv.length})).map (fun k => ({rr.lean} k, {cc.lean} k, {vv.lean} k))", "trips"); continue
+            if cfg.get("ret") == "lil":
+                c_ = st.value
+                if not (isinstance(c_, ast.Call) and isinstance(c_.func, ast.Attribute) and c_.func.attr in ("tocsc", "tocsr", "tocoo") and not c_.args
+                        and isinstance(c_.func.value, ast.Name) and c_.func.value.id in env and env[c_.func.value.id].ty == "attr2"):
+                    cx.err("the result is not <lil matrix>.tocsc()", st)
+                ret = env[c_.func.value.id]; continue
             ret = expr(cx, st.value, env); continue
         if isinstance(st, ast.Assign) and len(st.targets) == 1 and isinstance(st.targets[0], ast.Name):
             n = st.targets[0].id
@@ -1025,6 +1108,18 @@ def attr_function(fn, sigs, cfg):
                 else:
                     lets.append(f"let {ln} : {LTY[ty]} := {ZERO[ty]}")
                 env[n] = V(ln, ty); continue
+        wa = F.work_arrays(st, env)
+        if wa is not None:
+            for name, ety, init, size in wa:
+                ln = F.lname(name)
+                lets.append(f"let {ln} : Attr ({ETY[ety]}) := fun _ => {init}")
+                env[name] = V(ln, "attr:" + ety, length=size)
+            continue
+        lm = F.lil_matrix(st, env)
+        if lm is not None:
+            ln = F.lname(lm[0])
+            lets.append(f"let {ln} : Attr2 Rat := fun _ _ => 0")
+            env[lm[0]] = V(ln, "attr2"); F.shape = (lm[1], lm[2]); continue
         S = F.state_of([st], env)
         if isinstance(st, (ast.For, ast.If, ast.Expr)) or (isinstance(st, ast.AugAssign)) or isinstance(st, ast.Assign):
             term = F.block([st], env, S if S else [])
@@ -1036,7 +1131,11 @@ def attr_function(fn, sigs, cfg):
         cx.err("unsupported top-level statement", st)
     if ret is None: cx.err("no return")
     kind = cfg.get("ret", "attr")
-    if kind == "attr":
+    if kind == "coo":
+        rty = "List (Nat × Nat × Rat)"
+    elif kind == "lil":
+        rty = "Attr2 Rat"
+    elif kind == "attr":
         if not ret.ty.startswith("attr:"): cx.err(f"returns a {ret.ty}, not the attribute")
         rty = f"Attr ({ETY[ret.ty[5:]]})"
     else:
@@ -1226,10 +1325,27 @@ MASS = [
 ]
 
 
+COO = [
+    dict(file=OF + "adjacency.py", name="adjacency_matrix", ret="coo", index_arrays="nat", mode_dict="wdict",
+         sigs={"distance": ("elen", ["vec", "vec"], "rat")},
+         params=[P_VS, P_E, (None, "elen", "V3 → V3 → Rat", "x"), (None, "wdict", "Attr Rat", "x"), ("weights", "weights", "String", "mode")]),
+    dict(file=OF + "adjacency.py", name="vertex_to_edge_operator", ret="lil", params=[P_VS, P_E, ("oriented", "oriented", "Bool", "bool")]),
+    dict(file=OF + "adjacency.py", name="vertex_to_face_operator", ret="lil", params=[P_VS, P_F]),
+]
+
+
 def translate_c08():
     sites, chunks, tails = [], [], []
     info = {"translated": []}
     trees = {}
+    for cfg in COO:
+        def run(cfg=cfg):
+            if cfg["file"] not in trees: trees[cfg["file"]] = T.load(cfg["file"])[0]
+            txt, F = attr_function(T.find_def(trees[cfg["file"]], cfg["name"]), {}, cfg)
+            chunks.append(txt + "\n")
+            info["translated"].append(f"{cfg['file']}::{cfg['name']}")
+            return f"{txt.count('for')} loop(s), {txt.count('wr ')} write(s), shape {getattr(F, 'shape', None)}"
+        sites.append(T.site(f"{cfg['file'].split('/')[-1]}:{cfg['name']} (body)", run))
     for cfg in MASS:
         def run(cfg=cfg):
             if cfg["file"] not in trees: trees[cfg["file"]] = T.load(cfg["file"])[0]
